@@ -31,7 +31,8 @@ REPORT = [['-L'], ['-l'], ['-OLIST', 'out.lst'], ['-u', '-L'], ['-C', '-L'], ['-
           ['-x'], ['-x', '-x'], ['-n'], ['-A'], ['-r'], ['-E', 'err.log'], ['-gnuerrors'],
           ['-LISTRADIX', '2', '-L'], ['-LISTRADIX', '8', '-L'], ['-LISTRADIX', '10', '-L'], ['-LISTRADIX', '36', '-L'], ['-P'], ['-M'], ['-h', '-L'], ['-SPLITBYTE', '.', '-L'],
           ['-u'], ['-C'], ['-s'], ['-I'], ['-t', '255']]
-ENVDEV = ['carrier:ASCMD', 'carrier:keyfile', 'carrier:keyfile-nonl', 'carrier:keyfile-oneline', 'cwd:other', 'opath', 'lang:de_DE', 'lang:en_US', 'LANG:de_DE.UTF-8', 'noq']
+ENVDEV = ['carrier:ASCMD', 'carrier:keyfile', 'carrier:keyfile-nonl', 'carrier:keyfile-oneline', 'cwd:other', 'opath', 'lang:de_DE', 'lang:en_US', 'LANG:de_DE.UTF-8', 'noq',
+          'ipath:add-remove', 'ipath:list-form']    # an include directory added and taken away again; the directories given as one list
 NO_Q_OK = True
 
 GEN = {
@@ -144,6 +145,10 @@ def runcfg(t, devl):
         elif v == 'noq':
             quiet = []
     allopts = flags_of(t) + quiet + ['-i', corpus.incdir()]
+    if ('env', 'ipath:add-remove') in [tuple(x) for x in devl]:
+        allopts += ['-i', '/nonexistent/verif-junk', '+i', '/nonexistent/verif-junk']
+    if ('env', 'ipath:list-form') in [tuple(x) for x in devl]:
+        allopts = flags_of(t) + quiet + ['-i', corpus.incdir() + ':/nonexistent/verif-junk']
     if ('env', 'opath') in [tuple(x) for x in devl]:
         allopts += ['-o', out]
     allopts += opts
